@@ -20,7 +20,7 @@ def maxU32 : Nat := 4294967295
 structure Ent where
   id : Nat
   gen : Nat
-  deriving DecidableEq, Repr, Inhabited, BEq, Hashable
+  deriving DecidableEq, Repr, Inhabited, Hashable
 
 namespace Ent
 /-- The reserved zero entity `Entity{}`. -/
@@ -29,8 +29,7 @@ def isZero (e : Ent) : Bool := e.id == 0
 instance : ToString Ent := ⟨fun e => s!"{e.id}.{e.gen}"⟩
 end Ent
 
-@[simp] theorem Ent.beq_iff (a b : Ent) : (a == b) = true ↔ a = b := by
-  cases a; cases b; simp [BEq.beq, instBEqEnt.beq]
+theorem Ent.beq_iff (a b : Ent) : (a == b) = true ↔ a = b := beq_iff_eq
 
 /-- Classes of panics. The harness maps Go panic messages onto these classes; a Go *runtime*
     panic (index out of range, nil dereference) is class `runtime`. -/
